@@ -1,22 +1,36 @@
 """C16 — connected components and topology counts agree with the graph.
 
-Oracle: real library only.  After building the graph (and, in 60% of the cases, a short mutation history of
-rm / add_line / rename steps through the public API) the WRITTEN TEXT str(g) is read by _graphgen.parse (tab
+Oracle: real library only.  After building the graph the WRITTEN TEXT str(g) is read by _graphgen.parse (tab
 splitting; E lines classified by the independent geometric rule of C11: whole interval on a side = containment,
 oriented suffix meeting oriented prefix = dovetail, otherwise internal) and compared with the library:
   * connected_components() as a set of frozensets of names = union-find over the dovetail records only; every
-    segment in exactly one component; segment_connected_component(s), by name and by instance, = the class of s;
+    segment in exactly one component; segment_connected_component(s), by name and by instance, = the class of s
+    (graphs of more than 6 segments: every segment is asked once, by name or by instance alternately);
   * n_dovetails / n_containments / n_internals = number of such records; n_dead_ends = number of segment ends
     carrying no dovetail; the queries do not change the text;
   * remove_small_components(minlen) (only when every segment length is known): exactly the components whose
     summed segment length is < minlen disappear, every line that does not depend on a removed segment is
     textually unchanged, nothing new, no line mentions a removed segment.
+In 70% of the cases the graph goes through a history of 1-5 changes made through ANY PUBLIC ROUTE, and the answers
+must be those of the graph as it is at the time of each query, whatever was asked before:
+  * removal of a segment or of an edge by Gfa.rm(name / line) or by line.disconnect();
+  * addition of a segment, dovetail, containment or internal alignment by Gfa.add_line(text) or by
+    gfapy.Line(text).connect(gfa);
+  * renaming of a segment;
+  * graph operations which edit the graph themselves: multiply(segment, 2..3), remove_self_links(),
+    remove_dead_ends(minlen), merge_linear_paths();
+  * `query` steps between the changes (always one before the first change, then before each later change with
+    probability 1/2): all the queries above are asked (segment_connected_component for one segment only) and compared
+    with the text of that moment - so an answer computed before a change is never allowed to survive it.
+The full comparison follows the last change.
 
 NOT CHECKED:
   * the order of components and of segments inside a component;
-  * is_cut_link / is_cut_segment / split_connected_components / remove_dead_ends (not in the property);
+  * is_cut_link / is_cut_segment / split_connected_components (not in the property); WHAT the graph operations
+    of a history do to the graph (C14/C15 and others): only that the queries describe the graph they leave;
   * remove_small_components when some segment has no known length (`*` without LN: the code adds None);
-  * a history step refused with a gfapy.Error is simply skipped (atomicity of refused steps belongs to C08);
+  * a history step refused with a gfapy.Error is simply skipped (atomicity of refused steps belongs to C08); an
+    addition naming a segment which is no longer in the graph (removed by an operation) is skipped as well;
   * if the text after the history is not closed (a line mentions a missing segment, DESIGN 7 #1/#2) the case is
     reported once as `history-leaves-dangling-reference` and nothing else is compared.
 """
@@ -26,8 +40,11 @@ from harness.props import _graphgen as G
 ID = "C16"
 RULE = ("random assembly-like graphs (_graphgen.gen_graph, GFA1/GFA2, isolated segments, trees, cycles, self-links, "
         "hairpins, parallel edges, containment-only and internal-only relations; <= 12 segments quick, <= 30 thorough), "
-        "60% followed by 1-5 mutation steps (rm segment, rm edge, add segment/dovetail/containment/internal, rename), "
-        "then one remove_small_components threshold. Non-trivial: at least 2 segments and one edge record.")
+        "70% followed by 1-5 mutation steps (rm segment / rm edge by Gfa.rm or line.disconnect, add "
+        "segment/dovetail/containment/internal by add_line or Line.connect, rename, multiply, remove_self_links, "
+        "remove_dead_ends, merge_linear_paths) interleaved with query steps whose answers "
+        "are compared with the text of that moment, then one remove_small_components threshold. Non-trivial: at least "
+        "2 segments and one edge record.")
 CASE_TIMEOUT = 60
 
 
@@ -59,38 +76,57 @@ def gen_case(rng, tier, i):
     edges = [e["line"] for e in d.edges]
     hist = []
     fresh = ["Z1", "Z2", "Z3", "Z4", "Z5", "Z6"]
-    if rng.random() < 0.6:
-        for _ in range(rng.randint(1, 5)):
+
+    def off():
+        return rng.choice(["rm", "disconnect"])
+
+    def on():
+        return rng.choice(["add_line", "connect"])
+    if rng.random() < 0.7:
+        for j in range(rng.randint(1, 5)):
+            if j == 0 or rng.random() < 0.5:
+                hist.append(["query", rng.randrange(1000)])
             r = rng.random()
-            if r < 0.25 and alive:
+            if r < 0.2 and alive:
                 n = rng.choice(sorted(alive))
-                hist.append(["rm_seg", n])
+                hist.append(["rm_seg", n, off()])
                 del alive[n]
-            elif r < 0.4 and edges:
-                hist.append(["rm_line", edges.pop(rng.randrange(len(edges)))])
-            elif r < 0.5 and fresh:
+            elif r < 0.35 and edges:
+                hist.append(["rm_line", edges.pop(rng.randrange(len(edges))), off()])
+            elif r < 0.43 and fresh:
                 n = fresh.pop(0)
                 ln = rng.randint(4, 12)
                 alive[n] = ln
-                hist.append(["add", "S\t%s\t*\tLN:i:%d" % (n, ln) if v == "gfa1" else "S\t%s\t%d\t*" % (n, ln)])
-            elif r < 0.8 and alive:
+                hist.append(["add", "S\t%s\t*\tLN:i:%d" % (n, ln) if v == "gfa1" else "S\t%s\t%d\t*" % (n, ln), on(), []])
+            elif r < 0.70 and alive:
                 a, b = rng.choice(sorted(alive)), rng.choice(sorted(alive))
                 la, lb = alive[a], alive[b]
                 kind = rng.random()
                 if kind < 0.7:
                     k = rng.choice([0, rng.randint(1, min(la, lb) - 1)])
-                    hist.append(["add", dovetail_line(v, a, rng.choice("LR"), la, b, rng.choice("LR"), lb, k)])
+                    hist.append(["add", dovetail_line(v, a, rng.choice("LR"), la, b, rng.choice("LR"), lb, k), on(), [a, b]])
                 elif kind < 0.85 and la > lb:
                     p = rng.randint(0, la - lb)
                     if v == "gfa1":
-                        hist.append(["add", "C\t%s\t%s\t%s\t%s\t%d\t*" % (a, rng.choice("+-"), b, rng.choice("+-"), p)])
+                        hist.append(["add", "C\t%s\t%s\t%s\t%s\t%d\t*" % (a, rng.choice("+-"), b, rng.choice("+-"), p), on(), [a, b]])
                     else:
                         hist.append(["add", "E\t*\t%s%s\t%s%s\t%s\t%s\t0\t%d$\t*" % (a, rng.choice("+-"), b, rng.choice("+-"),
-                                                                                 _pos(p, la), _pos(p + lb, la), lb)])
+                                                                                 _pos(p, la), _pos(p + lb, la), lb), on(), [a, b]])
                 elif v == "gfa2":
                     b1 = rng.randint(1, la - 2); e1 = rng.randint(b1, la - 1)
                     b2 = rng.randint(1, lb - 2); e2 = rng.randint(b2, lb - 1)
-                    hist.append(["add", "E\t*\t%s%s\t%s%s\t%d\t%d\t%d\t%d\t*" % (a, rng.choice("+-"), b, rng.choice("+-"), b1, e1, b2, e2)])
+                    hist.append(["add", "E\t*\t%s%s\t%s%s\t%d\t%d\t%d\t%d\t*" % (a, rng.choice("+-"), b, rng.choice("+-"), b1, e1, b2, e2),
+                                 on(), [a, b]])
+            elif r < 0.85 and alive:
+                k = rng.random()
+                if k < 0.45:
+                    hist.append(["op", "multiply", rng.choice(sorted(alive)), rng.choice([2, 2, 3])])
+                elif k < 0.6:
+                    hist.append(["op", "remove_self_links"])
+                elif k < 0.8:
+                    hist.append(["op", "remove_dead_ends", rng.choice([5, 8, 12, 1000])])
+                else:
+                    hist.append(["op", "merge_linear_paths"])
             elif alive and fresh:
                 old = rng.choice(sorted(alive))
                 new = fresh.pop(0)
@@ -112,9 +148,15 @@ def nontrivial(case):
 
 def tags(case):
     t = G.features(_doc(case))
-    t.append("history%d" % len(case["history"]))
+    t.append("history%d" % len([h for h in case["history"] if h[0] != "query"]))
     for h in case["history"]:
         t.append("op-" + h[0])
+        if h[0] == "op":
+            t.append("op-" + h[1])
+        if h[0] in ("rm_seg", "rm_line") and len(h) > 2:
+            t.append("route-" + h[2])
+        if h[0] == "add" and len(h) > 2:
+            t.append("route-" + h[2])
     return sorted(set(t))
 
 
@@ -140,40 +182,57 @@ def names_of(segs):
     return [str(s.name) for s in segs]
 
 
-def oracle(case):
-    gfapy = lib.import_gfapy()
-    F = []
-    try:
-        g = G.build(case, case.get("vlevel", 1))
-    except gfapy.Error:
-        return F
-    if lib.outcome(g.validate)[0] != "ok":
-        return F
-    for h in case["history"]:
-        if h[0] == "rm_seg":
-            r = lib.outcome(g.rm, h[1]) if g.segment(h[1]) is not None else ("ok", None)
-        elif h[0] == "rm_line":
-            target = [l for l in g.lines if str(l) == h[1]]
-            r = lib.outcome(g.rm, target[0]) if target else ("ok", None)
-        elif h[0] == "add":
-            r = lib.outcome(g.add_line, h[1])
+def _apply(gfapy, g, case, h):
+    """one history step through the public route it names -> lib.outcome(...) or None if the step does not apply"""
+    kind = h[0]
+    if kind in ("rm_seg", "rm_line"):
+        if kind == "rm_seg":
+            target = g.segment(h[1])
         else:
-            s = g.segment(h[1])
-            if s is None or g.line(h[2]) is not None:
-                continue
+            target = ([l for l in g.lines if str(l) == h[1]] or [None])[0]
+        if target is None:
+            return None
+        if len(h) > 2 and h[2] == "disconnect":
+            return lib.outcome(target.disconnect)
+        return lib.outcome(g.rm, h[1] if kind == "rm_seg" else target)
+    if kind == "add":
+        if len(h) > 3 and any(g.segment(n) is None for n in h[3]):
+            return None       # a segment named by the new edge was removed by a graph operation
+        if len(h) > 2 and h[2] == "connect":
+            return lib.outcome(lambda: gfapy.Line(h[1], version=case["version"], vlevel=case.get("vlevel", 1)).connect(g))
+        return lib.outcome(g.add_line, h[1])
+    if kind == "rename":
+        s = g.segment(h[1])
+        if s is None or g.line(h[2]) is not None:
+            return None
 
-            def ren():
-                s.name = h[2]
-            r = lib.outcome(ren)
-        if r[0] == "foreign":
-            return ["foreign-exception: %s during history step %r" % (r[1], h)]
+        def ren():
+            s.name = h[2]
+        return lib.outcome(ren)
+    if kind == "op":
+        if h[1] == "multiply":
+            if g.segment(h[2]) is None:
+                return None
+            return lib.outcome(g.multiply, h[2], h[3])
+        if h[1] == "remove_dead_ends":
+            if any(s.length is None for s in g.segments):
+                return None
+            return lib.outcome(g.remove_dead_ends, h[2])
+        return lib.outcome(getattr(g, h[1]))
+    return None
+
+
+def _queries(g, case, full, pick=0):
+    """every query of the property against the text of this moment.
+    -> (failures, parsed text or None if nothing further can be compared, classes, text)"""
+    F = []
     text = str(g)
     d = G.parse(text, case["version"])
     if not G.closed(d) or any(e["kind"] is None for e in d.edges):
         return ["history-leaves-dangling-reference: after %r the text mentions a missing segment: %r" % (
-            case["history"], [r_["line"] for r_ in d.recs if r_["rt"] in "LCEGFP" and any(x not in d.segs for x in r_["refs"])])]
+            case["history"], [r_["line"] for r_ in d.recs if r_["rt"] in "LCEGFP" and any(x not in d.segs for x in r_["refs"])])], None, None, text
     if d.dup_names or not all(e["valid"] for e in d.edges):
-        return F
+        return F, None, None, text
     # ------------------------------------------------------------------ components
     want = G.components(d)
     r = lib.outcome(lambda: [names_of(c) for c in g.connected_components()])
@@ -190,8 +249,18 @@ def oracle(case):
     for c in want:
         for n in c:
             cls[n] = c
-    for n in d.seg_order:
-        for arg, how in ((n, "name"), (g.segment(n), "instance")):
+    order = list(d.seg_order)
+    both = len(order) <= 6
+    salt = len(case["lines"])
+    if not full and order:
+        order = [order[pick % len(order)]]
+        both = False
+        salt = pick // 7
+    for idx, n in enumerate(order):
+        routes = ((n, "name"), (g.segment(n), "instance"))
+        if not both:
+            routes = (routes[(idx + salt) % 2],)
+        for arg, how in routes:
             r = lib.outcome(lambda: names_of(g.segment_connected_component(arg)))
             if r[0] != "ok":
                 F.append("segment-component-raises: %s by %s: %s %s" % (n, how, r[0], r[1]))
@@ -208,7 +277,39 @@ def oracle(case):
             F.append("%s-wrong: library %r, records of the text %d" % (attr, r[1], val))
     if str(g) != text:
         F.append("query-mutates: the text changed during the queries")
-    if F:
+    return F, d, want, text
+
+
+def oracle(case):
+    gfapy = lib.import_gfapy()
+    F = []
+    try:
+        g = G.build(case, case.get("vlevel", 1))
+    except gfapy.Error:
+        return F
+    if lib.outcome(g.validate)[0] != "ok":
+        return F
+    done = []
+    for h in case["history"]:
+        if h[0] == "query":
+            F, d, want, text = _queries(g, case, False, h[1])
+            if F:
+                return [f if f.startswith("history-leaves") else "%s (query after the steps %r)" % (f, done) for f in F]
+            if d is None:
+                return F
+            continue
+        r = _apply(gfapy, g, case, h)
+        if r is None:
+            continue
+        done.append(h)
+        if r[0] == "foreign":
+            if h[0] == "op":
+                return F          # what the graph operations do, and when they fail, is C14/C15's business
+            return ["foreign-exception: %s during history step %r" % (r[1], h)]
+    F, d, want, text = _queries(g, case, True)
+    if F and case["history"] and not F[0].startswith("history-leaves"):
+        F = ["%s (after the steps %r)" % (f, done) for f in F]
+    if F or d is None:
         return F
     # ------------------------------------------------------------------ remove_small_components
     if any(s["len"] is None for s in d.segs.values()):
